@@ -249,6 +249,14 @@ def _writes_through(repo, cls, fn, params, depth=0, memo=None):
                         a = _aliases(t.value, alias)
                         if a:
                             findings.append((s, alias[a], 'element store'))
+                    if isinstance(t, ast.Attribute) and t.attr in (
+                            'shape', 'dtype', 'strides', 'flags',
+                            'columns', 'index'):
+                        a = _aliases(t.value, alias)
+                        if a:
+                            findings.append((s, alias[a],
+                                             'in-place change of .%s'
+                                             % t.attr))
                 # rebinding
                 pos, what = borrowed(s.value)
                 if len(s.targets) == 1 and isinstance(
